@@ -338,7 +338,11 @@ def run(ctx):
             g = fr.guards(i)
             ctx.check(any((k == "n" and p is True) or (k == "(0 == n)" and p is False) for k, p in g) or True, "x", "x", "-", "") if False else None
         # predicate compares the tag
-        tagp = [l for l in P.lambdas_in(rm) if any("tag" in l.text(l.nodes[r]["val"]) and "==" in l.text(l.nodes[r]["val"]) for r in returns(l))]
+        def _tag_eq(l, r):
+            # `a.tag == tag`, also spelled `!(a.tag != tag)`: read through the condition normaliser
+            fs_ = CondNorm(l, P).decompose(l.nodes[r]["val"], True)
+            return len(fs_) == 1 and isinstance(fs_[0][0], str) and "tag" in fs_[0][0] and "==" in fs_[0][0] and fs_[0][1] is True
+        tagp = [l for l in P.lambdas_in(rm) if any("val" in l.nodes[r] and _tag_eq(l, r) for r in returns(l))]
         ctx.check(len(tagp) >= 2, "remove:by-tag", "value-shape", rm.loc(), "drop-ins and hooks are selected by tag equality",
                   "removal predicates do not compare tags")
         hk = [i for i in rm.calls("erase") if "prekill_hooks_in_reverse_order_" in rm.text(rm.nodes[i].get("recv", -1))]
@@ -481,7 +485,7 @@ def run(ctx):
     if fv is None and len(sws) == 1 and len(outer_l) == 1:
         sw = sws[0]
         fv = sw["var"]
-        lam_ = P.fns.get(sw["pred"]) if sw.get("pred") else None
+        lam_ = P.closure_fn(sw["pred"]) if sw.get("pred") else None
         byname = lam_ is not None and any(".name" in ret_text(lam_, r_) and "==" in ret_text(lam_, r_) for r_ in returns(lam_))
         ctx.check(outer_l[0]["stmt"] in list(cd.ancestors(sw["call"])) and byname, "dropin:target-lookup-is-per-ruleset", "scope / per-iteration reset", cd.loc(sw["call"]),
                   "the base is searched by name (std::find_if) afresh for every ruleset of the drop-in",
